@@ -414,9 +414,28 @@ func (r *rewriter) rewriteCall(n *ast.CallExpr, info *types.Info) ast.Expr {
 	if ppath != "sync" && ppath != "sync/atomic" {
 		return nil
 	}
+	if ppath == "sync" && tname == "Locker" {
+		// c.L.Lock() and friends: an interface value, dispatched at run time to the modelled mutex kinds
+		switch fn.Name() {
+		case "Lock", "Unlock":
+			sid := newSite("mutex", r.pkg.PkgPath, n.Pos(), "Locker."+fn.Name())
+			return &ast.CallExpr{Fun: rtSel("Locker" + fn.Name()), Args: []ast.Expr{se.X, intLit(sid)}}
+		}
+		fatalf("%s: sync.Locker.%s not modelled: extend the instrumenter", fset.Position(n.Pos()), fn.Name())
+		return nil
+	}
 	recv, ok := receiverPointer(se.X, sel)
 	if !ok {
 		fatalf("%s: cannot build receiver for %s.%s", fset.Position(n.Pos()), tname, fn.Name())
+		return nil
+	}
+	if ppath == "sync" && tname == "Cond" {
+		switch fn.Name() {
+		case "Wait", "Signal", "Broadcast":
+			sid := newSite("cond", r.pkg.PkgPath, n.Pos(), "Cond."+fn.Name())
+			return &ast.CallExpr{Fun: rtSel("Cond" + fn.Name()), Args: []ast.Expr{recv, intLit(sid)}}
+		}
+		fatalf("%s: sync.Cond.%s not modelled: extend the instrumenter", fset.Position(n.Pos()), fn.Name())
 		return nil
 	}
 	if ppath == "sync" && tname == "Pool" {
@@ -466,7 +485,7 @@ func (r *rewriter) rewriteCall(n *ast.CallExpr, info *types.Info) ast.Expr {
 
 // writeGenerated adds the in-package accessors (build tag verif; the scratch copy is always built with it).
 func writeGenerated(p *packages.Package) {
-	need := []string{"resetPools", "pools", "defaultOpts", "emptyResult", "Result", "Opts"}
+	need := []string{"resetPools", "pools", "defaultOpts", "emptyResult", "Result", "Opts", "withRecycleResults", "newSchemaValidator", "SchemaValidatorOptions"}
 	scope := p.Types.Scope()
 	for _, n := range need {
 		if scope.Lookup(n) == nil {
@@ -505,6 +524,9 @@ import (
 	"reflect"
 	"sync"
 	"unsafe"
+
+	"github.com/go-openapi/spec"
+	"github.com/go-openapi/strfmt"
 )
 
 // verifVars: every package-level variable of the package (but the pools, which resetPools() renews).
@@ -570,6 +592,16 @@ func VerifPoolNames() map[*sync.Pool]string {
 func VerifBorrowResult() *Result { return pools.poolOfResults.BorrowResult() }
 
 func VerifRedeemResult(r *Result) { pools.poolOfResults.RedeemResult(r) }
+
+// VerifPooledValidation validates data the way AgainstSchema does internally (recycled validators AND recycled
+// results) and hands out the pooled result itself: a pooled operand that carries schemata (C20).
+func VerifPooledValidation(schema *spec.Schema, data interface{}, formats strfmt.Registry) *Result {
+	opts := new(SchemaValidatorOptions)
+	for _, o := range []Option{WithRecycleValidators(true), withRecycleResults(true)} {
+		o(opts)
+	}
+	return newSchemaValidator(schema, nil, "", formats, opts).Validate(data)
+}
 
 // VerifDefaultOpts returns the current package-level defaults (read without synchronisation: quiescent use only).
 func VerifDefaultOpts() Opts { return defaultOpts }
